@@ -910,6 +910,18 @@ fn cap_stats(b: &[Ex]) -> (usize, usize, usize) {
     (nf, nr, depth)
 }
 
+fn count_f27(b: &[Ex]) -> usize {
+    b.iter()
+        .map(|s| match s {
+            Ex::Asg(x, e) => match &**e {
+                Ex::Fn(_, body) => count_f27(body),
+                other => read_after_list(*x, other) as usize,
+            },
+            _ => 0,
+        })
+        .sum()
+}
+
 fn gen_cap_script(rng: &mut Rng) -> Vec<Ex> {
     let mut g = CapGen { rng, next: 0, f27_shapes: 0 };
     let mut scope: Vec<(u32, Ty)> = vec![];
@@ -920,7 +932,7 @@ fn gen_cap_script(rng: &mut Rng) -> Vec<Ex> {
         scope.push((x, Ty::Int));
     }
     let lines = 2 + g.rng.below(4);
-    let body = g.block(&mut scope, 2, lines, true);
+    let body = g.block(&mut scope, 3, lines, true);
     script.extend(body);
     script
 }
@@ -2017,9 +2029,11 @@ fn gen_gen_case(rng: &mut Rng) -> GenCase {
     };
     let lazy = matches!(consumer, Consumer::For(Some(_)) | Consumer::Nexts(_) | Consumer::Take(_));
     let mut live: Vec<u32> = params.iter().chain(caps.iter()).map(|p| p.0).collect();
-    // captured variables are never assigned inside the generator body (a captured variable that
-    // is assigned in the body is the subject of F-C02-1/F-C02-2 and of static scoping, which the
-    // coroutine model does not cover); parameters are assigned freely
+    // captured variables are never assigned inside the generator body: a variable assigned anywhere
+    // earlier in the text is local from there on even if that assignment did not execute (it then
+    // reads as null), which the coroutine model does not cover; parameters are assigned freely.
+    // Generators that assign captured variables (in block bodies, after header reads, …) are
+    // exercised by the capx family
     let frozen: Vec<u32> = caps.iter().map(|c| c.0).collect();
     let mut g = GenGen { rng, next, big: lazy };
     let len = 2 + g.rng.below(5);
@@ -2938,7 +2952,7 @@ fn main() {
     kvh::quiet_panics();
     let args = Args::parse();
     let mut rep = Report::new("C02", &args);
-    rep.rule = "case = one script + the same abstract case for the model. bind: function definition (0-3 required, 0-3 optional with tick()-wrapped defaults, variadic?, 0-3 captures reassigned after creation, `_`, nested tuple patterns depth<=2 with leading/trailing ellipsis, map patterns {k}, {k as v}, {k as _}) x call form (paren, paren-free, piped, instance, generator call) x argument count arity-2..arity+2 x 0-2 (thorough 0-3) packed arguments of length 0-3 at any position (count grid enumerated exhaustively for plain parameters, random for rich ones); cap: random scripts with nested/recursive closures; share: random histories over int/list variables, closures, defaults; gen: random generator bodies x 5 consumers. distinct = distinct request lines; non-trivial = bind: at least one parameter or capture, cap: defines a closure, share: calls a closure, gen: all".into();
+    rep.rule = "case = one script + the same abstract case for the model. bind: function definition (0-3 required, 0-3 optional with tick()-wrapped defaults, variadic?, 0-3 captures reassigned after creation, `_`, nested tuple patterns depth<=2 with leading/trailing ellipsis, map patterns {k}, {k as v}, {k as _}) x call form (paren, paren-free, piped, instance, generator call) x argument count arity-2..arity+2 x 0-2 (thorough 0-3) packed arguments of length 0-3 at any position (count grid enumerated exhaustively for plain parameters, random for rich ones); cap: random scripts with nested (1-3 deep)/recursive closures, assignment targets read anywhere in the right-hand side; capx: random function and generator bodies over the wider syntax (block if/for/while/until, switch, match with binding patterns and guards, inline if, string interpolation, tuples, assignments nested in expressions, multi-assignment with {x} and {k as x} targets reading same-named outer variables, nested closures 1-3 deep): accessed_non_locals of the real parser = Model/CaptureX.lean, declaratively free names are captured, closure run = parameter run; share: random histories over int/list variables, closures, defaults; gen: random generator bodies x 5 consumers. distinct = distinct request lines; non-trivial = bind: at least one parameter or capture, cap: defines a closure, share: calls a closure, gen: all".into();
     let drv = if args.driver.is_empty() || args.has_flag("--no-driver") { None } else { Some(Driver::spawn(&args.driver)) };
     let mut ctx = Ctx { rt: Runtime::new(), drv, rep, pending: vec![] };
     if args.extra.windows(2).any(|w| w[0] == "--plant" && w[1] == "swap-free-args") {
@@ -3050,6 +3064,9 @@ fn main() {
     for _ in 0..n_cap {
         let s = gen_cap_script(&mut rng);
         let (nf, nr, depth) = cap_stats(&s);
+        if count_f27(&s) > 0 {
+            ctx.rep.bump("cap:target-read-after-nested-list(F-C02-1 shape)");
+        }
         ctx.rep.bump(&format!("cap:closures={}", nf.min(4)));
         ctx.rep.bump(&format!("cap:closure-nesting={}", depth));
         if nr > 0 {
